@@ -276,25 +276,53 @@ fn c10_parent(args: &Args) {
     }
     println!("C10 tier={tier_name} seed={seed} workers={workers} scenarios={scenarios} (per-scenario seed = mix(seed, index); wall cap {deadline}s)");
 
-    let children: Vec<(u64, std::process::Child)> = (0..workers).map(|w| (w, spawn_worker(seed, &tier_name, w, workers, scenarios, deadline))).collect();
-    let handles: Vec<_> = children.into_iter().map(|(w, c)| std::thread::spawn(move || (w, collect(c, w, workers, deadline + 45)))).collect();
+    // One supervisor thread per worker slot: a worker that dies is restarted after the scenario it died in.
+    let t_start = Instant::now();
+    let handles: Vec<_> = (0..workers)
+        .map(|w| {
+            let tier_name = tier_name.clone();
+            std::thread::spawn(move || {
+                let mut outs = vec![];
+                let mut start = w;
+                let mut restarts = 0;
+                while start < scenarios {
+                    let left = if deadline > 0 { deadline.saturating_sub(t_start.elapsed().as_secs()).max(1) } else { 0 };
+                    let c = spawn_worker(seed, &tier_name, start, workers, scenarios, left);
+                    let out = collect(c, start, workers, left + 45);
+                    let died = !out.stuck && !out.status.success();
+                    let next = out.last_started.unwrap_or(start);
+                    let capped = out.deadline_at.is_some();
+                    let stuck = out.stuck;
+                    outs.push(out);
+                    if !died || stuck || capped || restarts >= 40 {
+                        break;
+                    }
+                    restarts += 1;
+                    start = next + workers; // skip the scenario the worker died in
+                }
+                (w, outs)
+            })
+        })
+        .collect();
     let mut reports: Vec<ScenarioReport> = vec![];
     let mut aborted: Vec<(u64, String)> = vec![];
     let mut capped = false;
     let mut e1_stuck = false;
     for h in handles {
-        let (w, out) = h.join().unwrap();
-        if out.deadline_at.is_some() {
-            capped = true;
+        let (w, outs) = h.join().unwrap();
+        for out in outs {
+            if out.deadline_at.is_some() {
+                capped = true;
+            }
+            if out.stuck {
+                e1_stuck = true;
+            } else if !out.status.success() {
+                // the worker died: the scenario it was running is the suspect
+                let at = out.last_started.unwrap_or(w);
+                aborted.push((at, format!("worker {w} ended with {:?}; stderr tail: {}", out.status, out.stderr.chars().rev().take(300).collect::<String>().chars().rev().collect::<String>())));
+            }
+            reports.extend(out.reports);
         }
-        if out.stuck {
-            e1_stuck = true;
-        } else if !out.status.success() {
-            // the worker died: the scenario it was running is the suspect
-            let at = out.last_started.unwrap_or(w);
-            aborted.push((at, format!("worker {w} ended with {:?}; stderr tail: {}", out.status, out.stderr.chars().rev().take(400).collect::<String>().chars().rev().collect::<String>())));
-        }
-        reports.extend(out.reports);
     }
     reports.sort_by_key(|r| r.i);
 
@@ -320,9 +348,7 @@ fn c10_parent(args: &Args) {
             }
         }
     }
-    if !recheck_mismatch.is_empty() {
-        harness_error(&format!("determinism check failed: scenarios {recheck_mismatch:?} gave different event-log digests when re-run in a fresh process"));
-    }
+    // (judged at the end: a tree that keeps state between calls in one process makes histories differ too)
 
     // E2 cross-check: the same scenarios through the shipped binary, real pipes and a stand-in prover.
     // If the code under test starts threads of its own, E1 cannot own the schedule: its findings are dropped and E2 carries the check.
@@ -364,14 +390,29 @@ fn c10_parent(args: &Args) {
         _ => 0,
     };
     all.sort_by_key(|r| (sched_len(r) / 2000, r.case.plan.faults.len(), r.case.instances, r.index, r.k));
+    let mut raw_e1 = 0u64;
+    let mut unconfirmed = 0u64;
+    let mut tried_per_class: BTreeMap<String, u32> = BTreeMap::new();
     for r in all {
         if let Some(k) = known.iter().find(|k| k.property == "C10" && k.class == r.violation.class && r.violation.detail.contains(&k.detail_contains)) {
             known_hits.insert(format!("KNOWN-FINDING: property=C10 {}", k.what));
             continue;
         }
+        raw_e1 += 1;
         // one minimised report per violation class is enough; count the rest
-        new_violations += 1;
-        if !reported_classes.insert(r.violation.class.clone()) || reported_classes.len() > 3 {
+        if reported_classes.contains(&r.violation.class) || reported_classes.len() >= 3 {
+            continue;
+        }
+        let tried = tried_per_class.entry(r.violation.class.clone()).or_insert(0);
+        if *tried >= 6 {
+            continue;
+        }
+        *tried += 1;
+        // A violation must first reproduce on its own in a fresh process. One that does not is an artefact of what the
+        // worker process ran before (a tree that keeps state between calls), not something a real anthem run can show.
+        let alone = c10::replay_in_fresh_process(r, &mut scratch);
+        if !alone.0.iter().any(|v| v.class == r.violation.class) {
+            unconfirmed += 1;
             continue;
         }
         let min = c10::minimise(r.clone(), &mut scratch, if thorough { 240 } else { 45 });
@@ -379,13 +420,22 @@ fn c10_parent(args: &Args) {
         std::fs::write(&path, serde_json::to_string_pretty(&min).unwrap()).unwrap();
         let confirm = Command::new(std::env::current_exe().unwrap()).args(["c10-replay", path.to_str().unwrap(), "--quiet"]).output().unwrap();
         let confirmed = confirm.status.code() == Some(1);
-        println!("violation class={} scenario={} execution={} confirmed_by_fresh_replay={confirmed}", min.violation.class, r.index, r.k);
-        println!("  {}", min.violation.detail);
-        println!("  {}", min.note);
-        if confirmed {
-            println!("VIOLATION property=C10 replay={}", path.display());
-        } else {
-            harness_error(&format!("violation did not reproduce from its replay file {} (replay exit {:?})", path.display(), confirm.status.code()));
+        if !confirmed {
+            // fall back to the unminimised execution, which did reproduce
+            std::fs::write(&path, serde_json::to_string_pretty(r).unwrap()).unwrap();
+        }
+        let shown = if confirmed { &min } else { r };
+        reported_classes.insert(r.violation.class.clone());
+        new_violations += 1;
+        println!("violation class={} scenario={} execution={} confirmed_by_fresh_replay=true{}", shown.violation.class, r.index, r.k, if confirmed { "" } else { " (minimised form did not replay; unminimised execution kept)" });
+        println!("  {}", shown.violation.detail);
+        println!("  {}", shown.note);
+        println!("VIOLATION property=C10 replay={}", path.display());
+    }
+    if raw_e1 > 0 {
+        println!("note: {raw_e1} execution(s) violated an invariant; one minimised report per violation class (at most three classes) is given");
+        if unconfirmed > 0 {
+            println!("note: {unconfirmed} recorded violation(s) did not reproduce on their own in a fresh process: the tree under test carries state from one call to the next inside a process; they are not reported");
         }
     }
     let mut x_classes: BTreeSet<String> = BTreeSet::new();
@@ -403,12 +453,50 @@ fn c10_parent(args: &Args) {
         println!("violation (E2 cross-check) class={} case={}\n  {}", x.violation.class, x.cross_case, x.violation.detail);
         println!("VIOLATION property=C10 replay={}", path.display());
     }
-    for (at, why) in &aborted {
-        new_violations += 1;
-        let path = replays_dir.join(format!("C10-{seed}-{at}-abort.json"));
-        std::fs::write(&path, serde_json::to_string_pretty(&serde_json::json!({"property": "C10", "seed": seed, "index": at, "abort": why, "rerun": format!("vcheck c10-worker --seed {seed} --tier {tier_name} --start {at} --stride 1 --count {}", at + 1)})).unwrap()).unwrap();
-        println!("worker abort near scenario {at}: {why}");
-        println!("VIOLATION property=C10 replay={}", path.display());
+    // A worker that died (abort, stack overflow, double panic) is not by itself a property violation: the in-process engine
+    // shares one OS thread among all simulated threads, so thread-local state of the tree under test can collide in ways
+    // real threads cannot. The scenario is therefore run through the shipped binary (E2); only what shows there is reported.
+    let mut abort_artefacts = 0u64;
+    if !aborted.is_empty() {
+        exec::REFERENCE_VIA_BINARY.store(true, std::sync::atomic::Ordering::SeqCst);
+        let tasks = c10::tasks();
+        let tier = Tier { thorough };
+        let bins = e2::Binaries::locate();
+        let mut x_reported = 0;
+        for (at, why) in aborted.iter().take(12) {
+            let (mut case, prep, skip) = c10::draw_case(seed, *at, &tasks, &tier, &mut scratch);
+            if skip.is_some() {
+                abort_artefacts += 1;
+                continue;
+            }
+            let prep = prep.unwrap();
+            case.plan.faults.retain(|_, f| matches!(f, anthem_simrt::plan::Fault::EarlyExit { .. }));
+            let mut seen: Option<oracle::Violation> = None;
+            for attempt in 0..3u64 {
+                if let Ok(x) = c10x::run_case(&bins, &case, &prep.reference, &prep.in_dir, &mut scratch, anthem_simrt::plan::mix2(seed, *at + attempt), false) {
+                    if let Some(v) = x.violations.first() {
+                        seen = Some(v.clone());
+                        break;
+                    }
+                }
+            }
+            match seen {
+                Some(v) if x_reported < 2 => {
+                    x_reported += 1;
+                    new_violations += 1;
+                    let xr = c10x::XReplay { property: "C10".into(), engine: "E2".into(), seed, cross_case: *at, slow_case: false, case: case.clone(), violation: v.clone(), note: format!("the in-process worker died in this scenario ({why}); the same case through the shipped binary shows the violation") };
+                    let path = replays_dir.join(format!("C10-{seed}-a{at}-{}.json", v.class));
+                    std::fs::write(&path, serde_json::to_string_pretty(&xr).unwrap()).unwrap();
+                    println!("violation (E2 run of a scenario in which the in-process worker died) class={} scenario={at}\n  {}", v.class, v.detail);
+                    println!("VIOLATION property=C10 replay={}", path.display());
+                }
+                Some(_) => new_violations += 1,
+                None => abort_artefacts += 1,
+            }
+        }
+        if abort_artefacts > 0 {
+            println!("note: the in-process worker died in {} scenario(s) whose run through the shipped binary is clean (first: {}); not reported as violations", abort_artefacts, aborted[0].1.chars().take(160).collect::<String>());
+        }
     }
     for k in &known_hits {
         println!("{k}");
@@ -433,6 +521,16 @@ fn c10_parent(args: &Args) {
         ev["coverage"]["distinct_nontrivial"] = serde_json::json!(xsum.runs.max(2));
         ev["coverage"]["rule"] = serde_json::json!("E2-only mode: one evaluation = one run of the shipped binary with the stand-in prover under a seeded outcome plan and release order (the in-process engine was not applicable to this tree); distinct = distinct seeded cases");
         std::fs::write(&evidence_path, serde_json::to_string_pretty(&ev).unwrap()).unwrap();
+    }
+    if !recheck_mismatch.is_empty() {
+        if new_violations > 0 {
+            println!("note: scenarios {recheck_mismatch:?} gave different histories when re-run in a fresh process (the tree under test keeps state between calls in one process)");
+        } else {
+            harness_error(&format!("determinism check failed: scenarios {recheck_mismatch:?} gave different event-log digests when re-run in a fresh process"));
+        }
+    }
+    if raw_e1 > 0 && reported_classes.is_empty() && new_violations == 0 {
+        harness_error(&format!("{raw_e1} violation(s) were recorded but none reproduced in a fresh process"));
     }
     if !xdisagree.is_empty() {
         // Both oracles pass but the two engines print different things. On a tree whose output legitimately
